@@ -5,6 +5,7 @@ Property theorems only (helper lemmas: KlogV/Lemmas/TagsSpec.lean).
 with tables dumped from Go's unicode package); the theorems hold for every such table.
 -/
 import KlogV.Lemmas.TagsSpec
+import KlogV.Props.Rx.Tags
 namespace KlogV.C14
 
 /-- The scanner finds exactly the tags the specification's grammar defines … -/
